@@ -2,6 +2,7 @@ package main
 
 import (
 	"fmt"
+	"math"
 	"runtime"
 	"sync"
 	"time"
@@ -147,7 +148,104 @@ func init() {
 		return out
 	}
 
+	// fop op a b : one float64 operation of the hardware on two bit patterns (normal operands only)
+	ops["fop"] = func(a []string) string {
+		x, y := math.Float64frombits(uint64(atou(a[1]))), math.Float64frombits(uint64(atou(a[2])))
+		normal := func(f float64) bool {
+			e := math.Float64bits(f) >> 52 & 2047
+			return e != 0 && e != 2047
+		}
+		if !normal(x) || !normal(y) {
+			return "unsupported"
+		}
+		var z float64
+		switch a[0] {
+		case "add":
+			z = fadd(x, y)
+		case "sub":
+			z = fsub(x, y)
+		case "mul":
+			z = fmul(x, y)
+		case "div":
+			z = fdiv(x, y)
+		default:
+			panic("bad-arg fop")
+		}
+		if !normal(z) && math.Float64bits(z) != 0 {
+			return "unsupported"
+		}
+		return fmt.Sprintf("%d", math.Float64bits(z))
+	}
+
 	gens["C10"] = genC10
+}
+
+//go:noinline
+func fadd(x, y float64) float64 { return x + y }
+
+//go:noinline
+func fsub(x, y float64) float64 { return x - y }
+
+//go:noinline
+func fmul(x, y float64) float64 { return x * y }
+
+//go:noinline
+func fdiv(x, y float64) float64 { return x / y }
+
+func atou(s string) uint64 {
+	var v uint64
+	if _, err := fmt.Sscanf(s, "%d", &v); err != nil {
+		panic("bad-arg uint " + s)
+	}
+	return v
+}
+
+// genFops: float64 operations biased to exact ties (products of two odd 27-bit integers have 53 or
+// 54 bits; sums with exactly half an ulp), near-ties, cancellation and random operands.
+func genFops(g *Gen, n int) {
+	mk := func(mant uint64, exp int) uint64 { // mant: integer < 2^53, value mant * 2^exp
+		f := math.Ldexp(float64(mant), exp)
+		return math.Float64bits(f)
+	}
+	sign := func(b uint64) uint64 {
+		if g.Intn(4) == 0 {
+			return b | 1<<63
+		}
+		return b
+	}
+	opsN := []string{"add", "sub", "mul", "div"}
+	for i := 0; i < n; i++ {
+		var a, b uint64
+		op := opsN[g.Intn(4)]
+		tag := "fop:random"
+		switch g.Intn(6) {
+		case 0: // product of two odd 27-bit numbers: exact tie whenever it has 54 bits
+			a = mk(uint64(g.R.Int63n(1<<26))|1<<26|1, g.Intn(60)-30)
+			b = mk(uint64(g.R.Int63n(1<<26))|1<<26|1, g.Intn(60)-30)
+			op, tag = "mul", "fop:mul_tie"
+		case 1: // x + half an ulp (tie), +- a little (near tie)
+			m := uint64(g.R.Int63n(1<<52)) | 1<<52
+			e := g.Intn(40) - 20
+			a = mk(m, e)
+			h := []uint64{1 << 52, 1<<52 + 1, 1<<52 - 1, 3 << 51, 1 << 51}[g.Intn(5)]
+			b = mk(h, e-53)
+			op, tag = []string{"add", "sub"}[g.Intn(2)], "fop:add_half_ulp"
+		case 2: // cancellation
+			m := uint64(g.R.Int63n(1<<52)) | 1<<52
+			e := g.Intn(40) - 20
+			a = mk(m, e)
+			b = mk(m+uint64(g.Intn(3)), e)
+			op, tag = "sub", "fop:cancel"
+		case 3: // the shapes that occur in the tick computations
+			a = math.Float64bits(float64(g.R.Int63n(4294967296)))
+			b = math.Float64bits(float64(g.Pick(1, 24, 96, 1440, 8640, 86400)) * 49710.269629629629629629629629629)
+			op, tag = []string{"div", "mul"}[g.Intn(2)], "fop:tick_shape"
+		default:
+			a = mk(uint64(g.R.Int63n(1<<52))|1<<52, g.Intn(120)-60)
+			b = mk(uint64(g.R.Int63n(1<<52))|1<<52, g.Intn(120)-60)
+		}
+		g.Emit(fmt.Sprintf("fop %s %d %d", op, sign(a), sign(b)), tag, "kind:float_op")
+	}
 }
 
 
@@ -214,6 +312,7 @@ func genC10(g *Gen) {
 			return g.R.Int63n(tf), "off:random"
 		}
 	}
+	genFops(g, g.N(20000, 200000))
 	nrt := g.N(100000, 1500000)
 	for i := 0; i < nrt; i++ {
 		tf := tfs[i%len(tfs)]
